@@ -124,6 +124,8 @@ impl Prop for C05 {
             mode: e.0,
             verify_version: true,
             explicit_gate: true,
+            flushes: vec![],
+            buffered: false,
             inbound: stream,
             reads,
             writes: vec![],
@@ -179,6 +181,8 @@ impl Prop for C05 {
             mode,
             verify_version: rng.chance(1, 2),
             explicit_gate: true,
+            flushes: vec![],
+            buffered: false,
             inbound,
             reads,
             writes,
